@@ -47,7 +47,7 @@ def Genesis (s : State) : Prop :=
 def Reachable (s : State) : Prop := ∃ s0 ops, Genesis s0 ∧ s = run s0 ops
 
 /-- C05(d), full strength: a farmer can at any height withdraw any amount up to the recorded
-stake.  FALSE of the code (F-farm-1, F-farm-2): see `Props.C05.withdraw_can_fail`. -/
+stake.  FALSE of the code (F-farm-1): see `Props.C05.withdraw_can_fail`. -/
 def WithdrawNeverFails : Prop :=
   ∀ s, Reachable s → ∀ a id f p amt, getFarmer s a id = some f → getPool s id = some p →
     amt ≤ f.locked → ∃ s', step s (.unstake a id p.lpt amt) = .ok s'
@@ -84,18 +84,6 @@ def collectorShort (pre : State) (a : Addr) (id : PoolId) (denom : Denom) (amt :
 /-- per-rule budget solvency of one pool: remaining ≥ rpb × (end − max(last, start)) -/
 def budgetOkPool (p : Pool) : Bool :=
   p.rules.all fun r => decide ((r.rpb : Int) * (p.endH - (if p.last > p.start then p.last else p.start)) ≤ (r.remaining : Int))
-
-/-- F-farm-2 class entry: an accepted `AdjustPool` at `height = EndHeight` of a started pool
-whose additional reward omits a rule's denom, leaving the pool's budget insolvent -/
-def endTopUp (pre : State) (op : Op) (post : State) : Option PoolId :=
-  match op with
-  | .adjustPool _ id add _ =>
-    match getPool pre id, getPool post id with
-    | some p, some q =>
-      if pre.height = p.endH ∧ p.start ≤ pre.height ∧
-         (p.rules.any fun r => amountOf (add.getD []) r.denom = 0) ∧ !(budgetOkPool q) then some id else none
-    | _, _ => none
-  | _ => none
 
 def balsOf (s : State) : List ((Addr × Denom) × Nat) := s.bank.bal.filter (fun e => e.2 ≠ 0)
 
@@ -139,29 +127,19 @@ def interactionOk (pre post : State) (a : Addr) (id : PoolId) (denom : Denom) (d
       decide ((post.bank.balOf a d : Int) = (pre.bank.balOf a d : Int) - (if d = denom then dLocked else 0) + (amountOf post.resp d : Int))
   | _, _ => false
 
-/-- monitor memory: the pools that entered the F-farm-2 class in this history -/
+/-- monitor memory (none needed for C05) -/
 structure Mon where
-  poisoned : List PoolId := []
   deriving Inhabited
 
 def Mon.init (_ : State) : Mon := {}
 
-def poisonedDenom (m : Mon) (s : State) (d : Denom) : Bool :=
-  m.poisoned.any fun id => match getPool s id with
-    | some p => p.rules.any (fun r => r.denom = d) || p.lpt = d
-    | none => false
-
 /-- one monitor step; returns the failures `clause=… [class=…]` -/
 def check (m : Mon) (pre : State) (op : Op) (res : String) (post : State) : Mon × List String :=
-  let m1 : Mon := match endTopUp pre op post with
-    | some id => { m with poisoned := id :: m.poisoned }
-    | none => m
   let fails : List String :=
     -- (a) Σ stakes = pool total
     (if stakesSumB post then [] else ["clause=stakes-sum"]) ++
     -- (b) module account = stakes + budgets
-    ((moduleAccountDiffs post).map fun d =>
-      if poisonedDenom m1 post d then s!"clause=module-account denom={d} class=F-farm-2" else s!"clause=module-account denom={d}") ++
+    ((moduleAccountDiffs post).map fun d => s!"clause=module-account denom={d}") ++
     -- a rejected message changes nothing
     (match op with
      | .endBlocks _ => []
@@ -174,7 +152,6 @@ def check (m : Mon) (pre : State) (op : Op) (res : String) (post : State) : Mon 
          if amt ≤ f.locked ∧ denom = p.lpt then
            if res == "ok" then
              (if interactionOk pre post a id denom (-(amt : Int)) then [] else ["clause=withdraw-exact"])
-           else if m1.poisoned.contains id then ["clause=withdraw class=F-farm-2"]
            else if collectorShort pre a id denom amt then ["clause=withdraw class=F-farm-1"]
            else ["clause=withdraw"]
          else (if res == "ok" then ["clause=withdraw-over-stake"] else [])
@@ -184,6 +161,6 @@ def check (m : Mon) (pre : State) (op : Op) (res : String) (post : State) : Mon 
      | .harvest a id =>
        if res == "ok" then (if interactionOk pre post a id "" 0 then [] else ["clause=harvest-exact"]) else []
      | _ => [])
-  (m1, fails)
+  (m, fails)
 
 end Irismod.Spec.C05
